@@ -38,7 +38,7 @@ func (r *c22Run) Setup(s *sim.Sim) {
 			break
 		}
 	}
-	r.Variant = sim.Pick(p, "valid", "valid", "flipped", "empty", "other-key", "other-data", "truncated", "swapped-order")
+	r.Variant = sim.Pick(p, "valid", "valid", "flipped", "empty", "other-key", "other-data", "truncated", "swapped-order", "chain-foreign-leaf", "foreign-cert-only")
 	r.Flip = p.Intn(1 << 16)
 }
 
@@ -78,6 +78,25 @@ func (r *c22Run) Main(s *sim.Sim) {
 			case "swapped-order":
 				data = append(append([]byte(nil), q.ClientNonce...), q.ClientCertificate...)
 			}
+			respCert := sk.Cert
+			switch r.Variant {
+			case "chain-foreign-leaf", "foreign-cert-only":
+				// the response carries (also) a certificate that is not the one the secure channel was
+				// opened with, and the signature is made with that certificate's key
+				other := key("client", 2048)
+				if r.Cfg.ClientBits == 2048 {
+					other = key("server", map[int]int{1024: 2048, 2048: 1024, 3072: 2048, 4096: 2048}[r.Cfg.ServerBits])
+					if r.Cfg.Policy != "Basic128Rsa15" && r.Cfg.Policy != "Basic256" && other.Bits < 2048 {
+						other = key("server", 4096)
+					}
+				}
+				signKey = other.Key
+				if r.Variant == "chain-foreign-leaf" {
+					respCert = append(append([]byte(nil), sk.Cert...), other.Cert...)
+				} else {
+					respCert = other.Cert
+				}
+			}
 			sig, err := pol.SignAsym(signKey, data)
 			if err != nil {
 				s.Fail("HARNESS", "setup", "sign", "%v", err)
@@ -93,7 +112,7 @@ func (r *c22Run) Main(s *sim.Sim) {
 			}
 			c.Respond(reqID, &ua.CreateSessionResponse{
 				ResponseHeader: rawRespHeader(q.RequestHeader.RequestHandle, ua.StatusOK), SessionID: ua.NewNumericNodeID(1, 77), AuthenticationToken: ua.NewNumericNodeID(0, 4711),
-				RevisedSessionTimeout: 60000, ServerNonce: make([]byte, 32), ServerCertificate: sk.Cert,
+				RevisedSessionTimeout: 60000, ServerNonce: make([]byte, 32), ServerCertificate: respCert,
 				ServerSignature: &ua.SignatureData{Algorithm: pol.AsymSignatureURI(), Signature: sig},
 				ServerEndpoints: []*ua.EndpointDescription{{EndpointURL: srvURL, SecurityMode: r.Cfg.mode(), SecurityPolicyURI: r.Cfg.uri(), ServerCertificate: sk.Cert,
 					Server:             &ua.ApplicationDescription{ApplicationName: &ua.LocalizedText{}},
